@@ -78,9 +78,18 @@ WWrite == \E d \in Descs \cup {0} : \E pt \in PlusTags :         \* d = 0: None
                     /\ uid' = IF uid < 0 THEN uid ELSE IF Fault = "uid_not_advanced" THEN uid ELSE uid + 1
                     /\ ret' = [kind |-> "count", n |-> IF d = 0 THEN 0 ELSE NTracts(d)]
             /\ Step(Op("wwrite", "-", d, pt)) /\ UNCHANGED <<exists, writer>>
+\* write([description d, <an object that is neither a description nor a tract>]): rejected with TypeError before any
+\* row is written - the whole argument is unpacked and type-checked first (Fault: the valid part is written already)
+WWriteBad == \E d \in Descs :
+               /\ writer = "open"
+               /\ ret' = [kind |-> "TypeError", n |-> 0]
+               /\ rows' = IF Fault = "bad_write_partial" THEN rows \o Rows(d) ELSE rows
+               /\ uids' = IF Fault = "bad_write_partial" THEN uids \o UidRows(uid, d) ELSE uids
+               /\ ptags' = IF Fault = "bad_write_partial" THEN ptags \o Zeros(NTracts(d)) ELSE ptags
+               /\ Step(Op("wwrite_bad", "-", d, 0)) /\ UNCHANGED <<exists, writer, uid>>
 WClose == writer = "open" /\ writer' = "closed" /\ ret' = None /\ Step(Op("wclose", "-", 0, 0)) /\ UNCHANGED <<exists, rows, uid, uids, ptags>>
 WOpen == writer = "closed" /\ writer' = "open" /\ ret' = None /\ Step(Op("wopen", "-", 0, 0)) /\ UNCHANGED <<exists, rows, uid, uids, ptags>>
-Next == Csv \/ WInit \/ WWrite \/ WClose \/ WOpen
+Next == Csv \/ WInit \/ WWrite \/ WWriteBad \/ WClose \/ WOpen
 Spec == Init /\ [][Next]_vars
 
 \* ---- properties ----------------------------------------------------------------
@@ -98,6 +107,9 @@ LastCallRows ==
      /\ SubSeq(rows, Len(rows) - NTracts(op.d) + 1, Len(rows)) = Rows(op.d)
 \* closing and re-opening never loses or adds rows
 ReopenKeepsRows == [][ (hist' # hist /\ hist'[Len(hist')].name \in {"wclose", "wopen"}) => rows' = rows ]_vars
+
+\* a rejected call leaves the file as it was
+RejectedWriteChangesNothing == [][ret'.kind \in {"TypeError", "RuntimeError"} => rows' = rows /\ uid' = uid]_vars
 
 \* UIDs: one number per write() call (also for write(None)), indexes 1..total within the call, never reused
 UidsParallel == Len(uids) = Len(rows)
